@@ -1,6 +1,7 @@
 /- The driver's suites: one `step` function per harness suite. -/
 import KB.Driver.Util
 import KB.MemTTL
+import KB.EngineTxn
 namespace KB.Driver
 open KB
 
@@ -11,6 +12,14 @@ structure SuiteState where
   mem : MemTTL.State := {}
   ring : Ring := Ring.new 8
   dellog : List (Bool × Bytes) := []
+  /-- engine suite, TiKV transactions (KB.EngineTxn): write records, rollback marks, the timestamp oracle, and the
+  batches begun by `bbegin` that are still open (id, transaction, operations with their ttl) -/
+  twrites : List (Bytes × Nat) := []
+  tmarks : List (Bytes × Nat) := []
+  tclock : Nat := 0
+  topen : List (String × Txn × List (BOp × Nat)) := []
+  /-- a writer started by `astart` is held at its commit RPC -/
+  theld : Bool := false
   /-- the next range read / count / stream meets a transient engine error on its read of the compaction record -/
   getFault : Bool := false
   /-- revisions delivered so far on the (single) native watch stream of the script -/
@@ -103,7 +112,20 @@ hold, as the list of its operations with their ttl in seconds. One second is 100
 engine without native ttl ignores it. -/
 def engCommit (st : SuiteState) (ops : List (BOp × Nat)) : SuiteState :=
   let unit := if st.cfg.q.supportTTL then 1000 else 0
-  { st with mem := MemTTL.step st.mem (.commit (ops.map (fun o => MemTTL.writeOf (o.2 * unit) o.1))) }
+  { st with mem := MemTTL.step st.mem (.commit (ops.map (fun o => MemTTL.writeOf (o.2 * unit) o.1)))
+            -- every commit is a transaction of its own: one write record per key at a fresh commit timestamp
+            twrites := st.twrites ++ ops.map (fun o => (o.1.key, st.tclock + 2))
+            tclock := st.tclock + 2 }
+
+/-- the engine suite's store as a TiKV store (KB.EngineTxn) -/
+def SuiteState.tstore (st : SuiteState) : TStore :=
+  { data := st.eng, writes := st.twrites, marks := st.tmarks, clock := st.tclock }
+
+/-- `delcur:<k>` = compare-and-delete of the record an iterator opened now stands on -/
+def parseBOpAt (eng : Store) (s : String) : Option (BOp × Nat) :=
+  match s.splitOn ":" with
+  | ["delcur", k] => (eng.get (unhx k)).map (fun v => (.delcur (unhx k) v, 0))
+  | _ => parseBOp s
 
 def iterStr (l : List (Bytes × Bytes)) : String := joinOr (l.map (fun kv => s!"{hx kv.1}={hx kv.2}")) ","
 
@@ -133,6 +155,40 @@ def stepEngine (st0 : SuiteState) (toks : List String) : SuiteState × String :=
     match r with
     | .ok _ => (engCommit st bops, s!"batch {commitLine r}")
     | .error _ => (st, s!"batch {commitLine r}")
+  | "bbegin" :: id :: ops =>
+    -- BeginBatchWrite: the transaction (start timestamp, snapshot) begins here
+    let bt := st.tstore.begin
+    ({ st with tclock := bt.1.clock, topen := (id, bt.2, ops.filterMap (parseBOpAt st.eng)) :: st.topen }, s!"bbegin {id}")
+  | ["bcommit", id] =>
+    match st.topen.find? (·.1 == id) with
+    | none => (st, "bcommit no-such-batch")
+    | some (_, t, bops) =>
+      let st := { st with topen := st.topen.filter (·.1 != id) }
+      -- `Commit` as it is: the loop of KB.EngineTxn.commitRetry
+      let r := commitRetry q st.tstore t (bops.map (·.1))
+      match r.2 with
+      | .ok =>
+        -- the data goes through the suite's own commit path (ttl bookkeeping); it must be what the transaction wrote
+        let st' := engCommit st bops
+        if st'.eng == r.1.data then ({ st' with twrites := r.1.writes, tmarks := r.1.marks, tclock := r.1.clock }, "bcommit ok")
+        else (st', "bcommit MODEL-INCONSISTENT")
+      | res => ({ st with tmarks := r.1.marks, tclock := r.1.clock }, s!"bcommit {commitLine (res.asResult.map (fun _ => st.eng))}")
+  | "abandon" :: ops =>
+    let r := abandon q st.tstore ((ops.filterMap (parseBOpAt st.eng)).map (·.1))
+    let st := { st with tmarks := r.1.marks, tclock := r.1.clock }
+    match r.2 with
+    | none => (st, "abandon err uncertain")
+    | some e => (st, s!"abandon {commitLine (.error e)}")
+  | "astart" :: ops =>
+    -- a writer whose commit RPC is slow: prewritten, then stuck. Whoever needs its keys waits for the lock ttl and
+    -- rolls it back: for everybody else it is an abandoned writer (`abandon`); it learns so at `afinish`
+    let r := abandon q st.tstore ((ops.filterMap (parseBOpAt st.eng)).map (·.1))
+    let st := { st with tmarks := r.1.marks, tclock := r.1.clock }
+    match r.2 with
+    | none => ({ st with theld := true }, "astart held")
+    | some e => (st, s!"astart {commitLine (.error e)}")
+  | ["afinish"] =>
+    if st.theld then ({ st with theld := false }, "afinish err other") else (st, "afinish none")
   | ["sleep", ms] => ({ st with mem := MemTTL.step st.mem (.advance (atou ms)) }, "slept")
   | ["bigbatch", _, _] =>
     -- one batch whose last operation fails its condition: all or nothing (`commit` is `Except`-valued: a failed
@@ -251,22 +307,29 @@ def fillLoop (c : Cfg) (pfx val : Bytes) : Nat → Nat → BState → Option BSt
     | (.ok _, b') => fillLoop c pfx val n (i + 1) b'
     | _ => none
 
+/-- fault directives of a write. `abandon=1`: the request's client goes away while its transaction is being
+prewritten - the write is not applied and the client is told "uncertain" (for the backend the same as `f=un`; what it
+leaves in the ENGINE, a rollback record, is KB.EngineTxn's subject: it changes no answer, KB.C11Conflict). -/
+def writeFaults (opts : List (String × String)) : List Fault :=
+  if opt opts "abandon" == some "1" then [Fault.uncNotApplied] else parseFaults opts
+
 def stepBackend (st : SuiteState) (toks : List String) : SuiteState × String :=
   let c := st.cfg
   let (pos, opts) := parseOpts toks
   match pos with
+  | ["prebegin", _] => (st, "prebegin ok")
   | ["create", k, v] =>
     -- `backend.Create` / `backend.Update` refuse a write without a value before a revision is dealt
     -- (txn.go `errEmptyValue`, /repo f2a549c; the same rule as `KB.Etcd.runCall`): nothing changes
     if (unhx v).isEmpty then (st, "create err other") else
-    let (r, b) := doCreate c st.b (unhx k) (unhx v) (parseFaults opts)
+    let (r, b) := doCreate c st.b (unhx k) (unhx v) (writeFaults opts)
     ({ st with b := b }, writeLine "create" r)
   | ["update", k, v, e] =>
     if (unhx v).isEmpty then (st, "update err other") else
-    let (r, b) := doUpdate c st.b (unhx k) (unhx v) (atou e) (parseFaults opts)
+    let (r, b) := doUpdate c st.b (unhx k) (unhx v) (atou e) (writeFaults opts)
     ({ st with b := b }, writeLine "update" r)
   | ["delete", k, e] =>
-    let (r, b) := doDelete c st.b (unhx k) (atou e) (parseFaults opts)
+    let (r, b) := doDelete c st.b (unhx k) (atou e) (writeFaults opts)
     let line := match r with
       | .ok rev =>
         -- the response carries the previous kv
